@@ -191,23 +191,27 @@ def run_case(case):
     return None
 
 
-def _cfg(maxrows, emit):
-    return ('SPECIFICATION Spec\nCHECK_DEADLOCK FALSE\nCONSTANTS\n  MaxRows = %d\n  Emit = %s\n'
-            'INVARIANT OriginsHold\nINVARIANT LadderEquivalence\n' % (maxrows, 'TRUE' if emit else 'FALSE'))
+def _cfg(maxrows, emit, maxcols=5):
+    return ('SPECIFICATION Spec\nCHECK_DEADLOCK FALSE\nCONSTANTS\n  MaxRows = %d\n  Emit = %s\n  MaxCols = %d\n'
+            'INVARIANT OriginsHold\nINVARIANT LadderEquivalence\n' % (maxrows, 'TRUE' if emit else 'FALSE', maxcols))
 
 
 def run(ctx):
     ctx.assumptions += ['rule set: key attribute Id (or composite key Id+Name), Name, optional Opt with default, one external attribute, one '
-                        'ranged dict attribute; 8 column layouts (order, blank-titled, unknown, separated unknown '
+                        'ranged dict attribute; 10 column layouts (order, blank-titled, unknown, separated unknown '
                         'columns); cell values blank / a / b / the number 0; distinct titles',
                         'ladder equivalence is stated for the "blank all" end rule (a blank first cell ends a '
                         '"blank first" table before any fill-down)']
-    r = ctx.tlc('xls/XlsRead.tla', _cfg(1 if ctx.quick else 2, True), workers=16, timeout=7200, heap='16g')
+    r = ctx.tlc('xls/XlsRead.tla', _cfg(1, True), workers=16, timeout=7200, heap='16g')
     cases = [c for c in r.printed if isinstance(c, dict)]
+    if not ctx.quick:
+        # two data rows: exhaustive for the layouts of at most 3 columns (with all ten layouts the state space is 10^8)
+        r = ctx.tlc('xls/XlsRead.tla', _cfg(2, True, 3), workers=16, timeout=7200, heap='16g')
+        cases += [c for c in r.printed if isinstance(c, dict)]
     n_exh = len(cases)
     if n_exh < 1000:
         raise Machinery('XlsRead emitted %d cases' % n_exh)
-    r = ctx.tlc('xls/XlsRead.tla', _cfg(4, True), workers=8, simulate=(6000 if ctx.quick else 100000) // 8, depth=9, timeout=3000)
+    r = ctx.tlc('xls/XlsRead.tla', _cfg(4, True), workers=8, simulate=(6000 if ctx.quick else 300000) // 8, depth=9, timeout=3000)
     sim = [c for c in r.printed if isinstance(c, dict)]
     cases += sim
     res = pmap(run_case, cases)
@@ -221,7 +225,7 @@ def run(ctx):
     ctx.exhaustive = False
     ctx.extra['sheets_exhaustive'] = n_exh
     ctx.extra['sheets_simulated'] = len(sim)
-    ctx.extra['exhaustive_max_rows'] = 1 if ctx.quick else 2
+    ctx.extra['exhaustive_max_rows'] = '1 (all layouts)' if ctx.quick else '1 (all layouts), 2 (layouts of at most 3 columns)'
     for c in (cases[10], cases[n_exh // 2], cases[-1]):
         ctx.sample({'sheet': c['sheet'], 'stop_on': c['stopOn'], 'ladder': c['ladder'], 'results': len(c['objs'])})
 
